@@ -189,6 +189,11 @@ def check_every_crash_point(cx, env, new_content):
                 listed = e[1]
         available = set(p.name for p in packs) | set(e[1] for e in pre if e[0] == "finish")
         gone = set(e[1] for e in pre if e[0] == "obsolete")
+        if k < len(events) and events[k][0] == "finish":
+            # finish() writes indices/<name>.* and packs/<name>.pack in place: it must never do that to a pack that
+            # pack-names lists at this moment (a crash inside the write would leave a listed pack unreadable)
+            cx.require(events[k][1] not in listed, "after %d effect(s) a pack is finished under the name %s, which pack-names "
+                       "lists as a live pack: its index and pack files are rewritten in place" % (k, events[k][1]))
         for nm in listed:
             cx.require(nm in available and nm not in gone,
                        "after %d effect(s) %r the pack list names pack %s, which is %s" %
